@@ -97,6 +97,7 @@ func c02(c *Ctx) {
 	ck := c.ArgSource(cj, p.PlainCalls("ltx.(*Encoder).SetPostApplyChecksum"), 1) // the checksum call whose result is written into the LTX
 	anon := c.anonWith(cj, call("setDatabasePageChecksum"))
 	reset := p.PlainCalls(anon)
+	c.truncFamily("trunc")
 	c.Before("trunc-chksum/reset-before-checksum", cj, ck, reset, 1, "checksums of pages beyond the new size are cleared before the post-apply checksum is computed", "a shrink (vacuum) would keep the truncated pages in the checksum")
 	c.Guarded("trunc-chksum/reset-loop", anon, call("setDatabasePageChecksum"), gs(GP("(phi(@@) < builtin.len(p0.chksums.pages))", true)), 1, "the reset loop covers indices commit..len(pages)-1", "")
 	c.ExpectAll("trunc-chksum/reset-args", c.CallArgs(anon, call("setDatabasePageChecksum"), 1), pat("(phi((↺ + 1)|"+commit+") + 1)"), 1, "the loop starts at index commit (page commit+1)", "starting at commit-1 clears a live page; starting later leaves a truncated page in the sum")
@@ -128,4 +129,15 @@ func c02(c *Ctx) {
 	c.Guarded("truncate/aligned", td, tr, gs(GP("((p2 % p0.pageSize) == 0)", true)), 1, "truncation size is page aligned", "")
 	c.Guarded("truncate/committed-size-only", td, tr, gs(GP("((p2 / p0.pageSize) == litefs.(*DB).PageN(p0))", true)), 1, "the database file is truncated only to the committed size", "C07: TruncateDatabase is not authority-gated; this comparison is what keeps it from changing the image")
 	c.ExpectAll("truncate/size-arg", c.CallArgs(td, tr, 2), pat("(p2 / p0.pageSize)"), 1, "the size passed on is size/pageSize", "")
+}
+
+// truncFamily: truncateDatabase resizes, syncs and resets the checksum cache unconditionally (shared by C01, C02, C04, C17).
+func (c *Ctx) truncFamily(prefix string) {
+	p := c.P
+		td := "litefs.(*DB).truncateDatabase"
+		c.OnlyGuards(prefix+"/file-always-resized", td, p.PlainCalls("os.(*File).Truncate"), nil, 1, "truncateDatabase always resizes the file to the requested page count - unconditionally (the in-memory page count is not the file size)", "pages appended by an aborted transaction stay in the file when the resize is skipped because the logical size 'already matches': two nodes at the same position then have different database sizes")
+		c.ExpectAll(prefix+"/size", c.CallArgs(td, p.PlainCalls("os.(*File).Truncate"), 1), pat("(p2 * p0.pageSize)"), 1, "the new size is pageN * pageSize", "")
+		c.Before(prefix+"/synced", td, p.SuccessReturn, p.PlainCalls("os.(*File).Sync"), 1, "every successful truncateDatabase has synced the file", "")
+		c.ErrHandled(prefix+"/errors", td, p.PlainCalls("os.(*File).Truncate", "os.(*File).Sync"), p.PlainCalls("litefs.(*DB).resetDatabasePageChecksumsAfter"), 2, "a failed resize or sync is returned and the checksum cache is left alone", "")
+		c.OnlyGuards(prefix+"/cache-reset-unconditional", td, p.PlainCalls("litefs.(*DB).resetDatabasePageChecksumsAfter"), gs(G(`\(nil == os\.\(\*File\)\.(Truncate|Sync)\(.*\)\)|\(os\.\(\*File\)\.(Truncate|Sync)\(.*\) == nil\)`, true)), 1, "the cached checksums beyond the new size are reset whenever the resize succeeded - under no further condition", "in WAL mode the logical page count was lowered by the commit long before the checkpoint cuts the file: a reset that only runs 'when the database shrinks' never runs")
 }
